@@ -182,5 +182,51 @@ func runC17(r *vhlib.Run) {
 			}
 		}
 	}
+	// the WRITER's side of locality: whatever the flush schedule - here a Flush(FlushSync) after
+	// every record, several per chunk, as a logger would do - chunks stay within ChunkSize, so a
+	// small request anywhere costs about one or two chunks, not the distance from the start
+	for _, lvl := range []int{0, 1, 6} {
+		const chunk = 64
+		cfg := xwCfg{Level: lvl, ChunkSize: chunk, Index: -1}
+		var ops []xwOp
+		size := 0
+		for size < 6000 {
+			n := chunk/4 + rng.Intn(chunk/4)
+			b := make([]byte, n)
+			rng.Read(b)
+			ops = append(ops, xwOp{Kind: 'w', Data: b}, xwOp{Kind: 'f', Mode: 0})
+			size += n
+		}
+		ops = append(ops, xwOp{Kind: 'c'})
+		sink, plain, ok := makeXFStream(cfg, ops)
+		if !ok {
+			continue
+		}
+		cs := &countingSeeker{R: bytes.NewReader(sink)}
+		xr, err := xflate.NewReader(cs, nil)
+		if err != nil {
+			r.Violate("open-failed", fmt.Sprint(err), map[string]interface{}{"stream": "sync-flush-per-record"})
+			continue
+		}
+		// incompressible records: a chunk of 64 raw bytes with up to four sync markers and
+		// block headers is well below 64+100 compressed bytes; allow three of them
+		bound := 3 * (chunk + 100)
+		for q := 0; q < 30; q++ {
+			p := len(plain) - 1 - rng.Intn(len(plain)/2)
+			before := cs.Bytes
+			xr.Seek(int64(p), io.SeekStart)
+			buf := make([]byte, 16)
+			got, _ := io.ReadFull(xr, buf)
+			r.Eval("request:sync-flush-per-record", true, []byte(fmt.Sprint(lvl, q, p)))
+			if !bytes.Equal(buf[:got], plain[p:min(p+got, len(plain))]) {
+				r.Violate("wrong-data", fmt.Sprintf("p=%d", p), map[string]interface{}{"stream": "sync-flush-per-record", "level": lvl})
+			}
+			if int(cs.Bytes-before) > bound {
+				r.Violate("request-reads-too-much", fmt.Sprintf("ChunkSize %d, Flush(FlushSync) after every record of 16..31 bytes: Seek(%d)+Read(16) on a %d-byte stream fetched %d compressed bytes (bound %d = three chunks)", chunk, p, len(plain), cs.Bytes-before, bound),
+					map[string]interface{}{"stream": "sync-flush-per-record", "level": lvl, "p": p, "stream_hex": vhlib.Hex(sink)})
+				break
+			}
+		}
+	}
 	r.Sample(map[string]interface{}{"stream": "180 chunks of 5 bytes, index every 3 chunks", "request": "Seek(700); Read(15)", "allowed": "compressed bytes of chunks 140..143 and the index blocks between them"})
 }
